@@ -274,3 +274,170 @@ func (c *Ctx) ctorField(call *ssa.Call, fa *ssa.FieldAddr) ssa.Value {
 	}
 	return res
 }
+
+// closureCallSites: where the anonymous function fn is called — calls, in the function that creates the
+// closure, of a value that is this closure (directly or as one alternative of a phi), and, when the closure
+// (or such a phi) is handed to a library function as an argument, the calls of the receiving parameter inside
+// that function. nil if the closure escapes in a way this does not cover (stored, returned, sent).
+func (c *Ctx) closureCallSites(fn *ssa.Function) []ssa.CallInstruction {
+	par := fn.Parent()
+	if par == nil {
+		return nil
+	}
+	var out []ssa.CallInstruction
+	var mcs []ssa.Value
+	flow.Instrs(par, func(in ssa.Instruction) {
+		if mc, ok := in.(*ssa.MakeClosure); ok && mc.Fn == ssa.Value(fn) {
+			mcs = append(mcs, mc)
+		}
+	})
+	// values the closure flows into within par: itself, phis, conversions; a closure returned by par (a
+	// function that chooses a reader) continues at par's call sites
+	vals := map[ssa.Value]bool{}
+	var work []ssa.Value
+	for _, m := range mcs {
+		vals[m] = true
+		work = append(work, m)
+	}
+	returned := false
+	for len(work) > 0 {
+		v := work[len(work)-1]
+		work = work[:len(work)-1]
+		for _, ref := range flow.Referrers(v) {
+			switch x := ref.(type) {
+			case *ssa.Phi:
+				if !vals[x] {
+					vals[x] = true
+					work = append(work, x)
+				}
+			case *ssa.ChangeType:
+				if !vals[x] {
+					vals[x] = true
+					work = append(work, x)
+				}
+			case *ssa.Return:
+				returned = true
+			case ssa.CallInstruction:
+				com := x.Common()
+				if vals[com.Value] && !com.IsInvoke() {
+					out = append(out, x)
+					continue
+				}
+				h := flow.StaticCallee(x)
+				if h == nil || h.Blocks == nil || !c.P.IsLibrary(h) {
+					return nil
+				}
+				for i, a := range com.Args {
+					if !vals[a] || i >= len(h.Params) {
+						continue
+					}
+					for _, cj := range flow.CallInstrs(h) {
+						if cj.Common().Value == ssa.Value(h.Params[i]) && !cj.Common().IsInvoke() {
+							out = append(out, cj)
+						}
+					}
+				}
+			case *ssa.Store, *ssa.Send, *ssa.MakeInterface:
+				return nil
+			}
+		}
+	}
+	if returned && par.Signature.Results().Len() == 1 {
+		// the chosen closure is par's result: follow it at par's call sites (one level)
+		for _, cs := range c.librarySites(par) {
+			v := cs.Value()
+			if v == nil {
+				return nil
+			}
+			for _, ref := range flow.Referrers(v) {
+				ci, ok := ref.(ssa.CallInstruction)
+				if !ok {
+					continue
+				}
+				if ci.Common().Value == ssa.Value(v) && !ci.Common().IsInvoke() {
+					out = append(out, ci)
+					continue
+				}
+				h := flow.StaticCallee(ci)
+				if h == nil || h.Blocks == nil || !c.P.IsLibrary(h) {
+					continue
+				}
+				for i, a := range ci.Common().Args {
+					if a != ssa.Value(v) || i >= len(h.Params) {
+						continue
+					}
+					for _, cj := range flow.CallInstrs(h) {
+						if cj.Common().Value == ssa.Value(h.Params[i]) && !cj.Common().IsInvoke() {
+							out = append(out, cj)
+						}
+					}
+				}
+			}
+		}
+	}
+	return out
+}
+
+// funcValueTargets: the library functions a function value can be — a closure or function made here, one
+// alternative of a phi, the closures a library function returns, or (for a parameter of an unexported
+// function) what its library call sites pass. nil when a source is not one of these.
+func (c *Ctx) funcValueTargets(v ssa.Value, depth int) []*ssa.Function {
+	if depth > 3 {
+		return nil
+	}
+	switch x := v.(type) {
+	case *ssa.MakeClosure:
+		return []*ssa.Function{x.Fn.(*ssa.Function)}
+	case *ssa.Function:
+		return []*ssa.Function{x}
+	case *ssa.ChangeType:
+		return c.funcValueTargets(x.X, depth)
+	case *ssa.Phi:
+		var out []*ssa.Function
+		for _, e := range x.Edges {
+			t := c.funcValueTargets(e, depth+1)
+			if t == nil {
+				return nil
+			}
+			out = append(out, t...)
+		}
+		return out
+	case *ssa.Call:
+		g := flow.StaticCallee(x)
+		if g == nil || g.Blocks == nil || !c.P.IsLibrary(g) || g.Signature.Results().Len() != 1 {
+			return nil
+		}
+		var out []*ssa.Function
+		for _, rv := range flow.ReturnValues(g, 0) {
+			t := c.funcValueTargets(rv, depth+1)
+			if t == nil {
+				return nil
+			}
+			out = append(out, t...)
+		}
+		return out
+	case *ssa.Parameter:
+		f := x.Parent()
+		if f.Object() != nil && f.Object().Exported() {
+			return nil
+		}
+		css := c.librarySites(f)
+		if len(css) == 0 {
+			return nil
+		}
+		var out []*ssa.Function
+		for _, cs := range css {
+			i := paramIndex(f, x)
+			if i >= len(cs.Common().Args) {
+				return nil
+			}
+			t := c.funcValueTargets(cs.Common().Args[i], depth+1)
+			if t == nil {
+				return nil
+			}
+			out = append(out, t...)
+		}
+		return out
+	}
+	return nil
+}
